@@ -2,5 +2,10 @@
 
 package nodis
 
+import "time"
+
 // verifPoint marks a schedule point of the verification harness; it does nothing in a normal build.
 func verifPoint(string) {}
+
+// verifTimer: no replacement timer in a normal build.
+func verifTimer(time.Duration) <-chan time.Time { return nil }
